@@ -73,12 +73,7 @@ func imageCandidates(root *html.Node) []string {
 				out = append(out, v)
 			}
 			if v, ok := ora.Attr(n, "srcset"); ok {
-				for _, cand := range strings.Split(v, ",") {
-					f := strings.Fields(cand)
-					if len(f) > 0 {
-						out = append(out, f[0])
-					}
-				}
+				out = append(out, ora.SrcsetCandidates(v)...)
 			}
 		}
 		return true
